@@ -184,6 +184,10 @@ fn gen_char(rng: &mut Rng, class: u64) -> char {
 fn gen_units(rng: &mut Rng, target: usize) -> Vec<u16> {
     // class of the string: pure ASCII, pure Latin-1, mixed BMP+astral, astral-heavy, special-heavy
     let class = *rng.pick(&[0u64, 1, 1, 2, 2, 2, 2, 3, 4]);
+    gen_units_class(rng, target, class)
+}
+
+fn gen_units_class(rng: &mut Rng, target: usize, class: u64) -> Vec<u16> {
     let mut u: Vec<u16> = Vec::with_capacity(target + 1);
     let mut buf = [0u16; 2];
     while u.len() < target {
@@ -242,9 +246,25 @@ fn gen_empty_table(rng: &mut Rng) -> Vec<Entry> {
         .collect()
 }
 
+/// 1..3 long strings of 8-bit characters (4095 / 4096 / 4097 / 5000 / 8000 / 8200): as shared strings, and (file
+/// stage) as inline LABEL and formula STRING values, which hold up to 8224 bytes in one record
+fn gen_long8_table(rng: &mut Rng) -> Vec<Entry> {
+    let n = rng.range(1, 3) as usize;
+    (0..n)
+        .map(|_| {
+            let len = *rng.pick(&[4095usize, 4096, 4097, 5000, 8000, 8200]);
+            let class = rng.below(2);
+            Entry { units: gen_units_class(rng, len, class), runs: None, ext: None }
+        })
+        .collect()
+}
+
 fn gen_table(rng: &mut Rng) -> Vec<Entry> {
     if rng.chance(1, 12) {
         return gen_empty_table(rng);
+    }
+    if rng.chance(1, 40) {
+        return gen_long8_table(rng);
     }
     let n = match rng.below(10) {
         0 => 0,
@@ -304,12 +324,16 @@ struct Style {
     p_block: (u64, u64),
     pack: u8, // 0 = wide, 1 = narrow when possible, 2 = random
     aligned_runs: bool,
+    /// breaks may fall between the halves of a surrogate pair (a record is cut after any 16-bit unit)
+    split_pairs: bool,
+    /// now and then a CONTINUE record inside the characters holds its flag byte alone
+    flag_only: bool,
 }
 
 fn style(rng: &mut Rng, k: usize) -> Style {
     match k {
-        0 => Style { p_between: (0, 1), p_char: (0, 1), p_block: (0, 1), pack: 0, aligned_runs: true },
-        1 => Style { p_between: (0, 1), p_char: (0, 1), p_block: (0, 1), pack: 1, aligned_runs: true },
+        0 => Style { p_between: (0, 1), p_char: (0, 1), p_block: (0, 1), pack: 0, aligned_runs: true, split_pairs: true, flag_only: false },
+        1 => Style { p_between: (0, 1), p_char: (0, 1), p_block: (0, 1), pack: 1, aligned_runs: true, split_pairs: false, flag_only: false },
         _ => {
             let dens = [(1u64, 400u64), (1, 40), (1, 8), (1, 2), (9, 10)];
             Style {
@@ -318,6 +342,8 @@ fn style(rng: &mut Rng, k: usize) -> Style {
                 p_block: *rng.pick(&dens),
                 pack: *rng.pick(&[0u8, 1, 2, 2, 2]),
                 aligned_runs: true,
+                split_pairs: rng.chance(1, 2),
+                flag_only: rng.chance(1, 4),
             }
         }
     }
@@ -382,7 +408,7 @@ fn make_layout(t: &[Entry], rng: &mut Rng, st: &Style) -> Vec<Layout> {
             } else if st.p_char.0 > 0 {
                 let mut x = pos + 1;
                 while x < n {
-                    if !(is_high(u[x - 1]) && is_low(u[x])) && rng.chance(st.p_char.0, st.p_char.1) {
+                    if (st.split_pairs || !(is_high(u[x - 1]) && is_low(u[x]))) && rng.chance(st.p_char.0, st.p_char.1) {
                         q = x;
                         break;
                     }
@@ -401,7 +427,7 @@ fn make_layout(t: &[Entry], rng: &mut Rng, st: &Style) -> Vec<Layout> {
             let mut end = q;
             if end - pos > cap {
                 end = pos + cap;
-                if end > pos && end < n && is_high(u[end - 1]) && is_low(u[end]) {
+                if !st.split_pairs && end > pos && end < n && is_high(u[end - 1]) && is_low(u[end]) {
                     end -= 1;
                 }
             }
@@ -412,6 +438,10 @@ fn make_layout(t: &[Entry], rng: &mut Rng, st: &Style) -> Vec<Layout> {
                 break;
             }
             cur = 1; // new CONTINUE record: flag byte
+            if st.flag_only && rng.chance(1, 6) {
+                // a CONTINUE record that holds its flag byte alone; the characters go on in the next one
+                segs.push((0, rng.chance(1, 2)));
+            }
         }
         let wide0 = segs[0].1;
         let cuts: Vec<(usize, bool)> = (0..segs.len() - 1).map(|i| (segs[i].0, segs[i + 1].1)).collect();
@@ -679,7 +709,7 @@ fn run_raw(line: &str, drv: &mut Driver, expect: Option<&str>) -> Outcome {
                 format!("empty_{kind}_rejected_biff{}", if w[1] == "1" { 8 } else { 5 })
             } else if kind == "dec" {
                 "sst_strings_differ_from_stored".to_string()
-            } else if imp.starts_with("ok") && model == e {
+            } else if imp.starts_with("ok") && model == e && unhex(w.last().unwrap_or(&"-")).windows(2).any(|p| p == [0xFF, 0xFE] || p == [0xFE, 0xFF] || p == [0xEF, 0xBB]) {
                 format!("{kind}_bom_units_misdecoded")
             } else {
                 format!("{kind}_text_differs")
@@ -884,15 +914,25 @@ fn run_file(seed: u64, case_line: &str, stream: &[u8]) -> Outcome {
     for si in 0..nsheets {
         let name = sheet_name(si, texts.get(rng.below(texts.len().max(1) as u64) as usize).map(|s| s.as_str()).unwrap_or(""));
         let mut sh = XlsSheet::new(&name);
+        // BoundSheet8 kinds: worksheet, macro sheet, chart sheet, VBA module — the reader scans every substream for
+        // cell records the same way (a chart sheet caches its series data in such records)
+        sh.kind = *rng.pick(&[0u8, 0, 0, 1, 2, 6]);
+        o.count(&format!("file.sheet_kind_{}", sh.kind));
         let mut cells = vec![];
         for (i, txt) in texts.iter().enumerate() {
             if si == 0 || rng.chance(1, 2) {
                 sh.cells.push(XlsCell::new(i as u16, 0, CellV::LabelSst(i as u32)));
                 cells.push((i as u32, 0u32, txt.clone()));
             }
-            let short = t[i].units.len() <= 2000;
+            // an inline string must fit one record (8224 bytes): up to 8200 8-bit or 4100 16-bit characters
+            let narrow_ok = t[i].units.iter().all(|u| *u < 256);
+            let short = t[i].units.len() <= 4100 || (narrow_ok && t[i].units.len() <= 8200);
+            let pack = if t[i].units.len() > 4100 { Some(false) } else { None };
+            if t[i].units.len() > 4000 && short {
+                o.count("file.inline_strings_over_4000_chars");
+            }
             if short && rng.chance(1, 3) {
-                sh.cells.push(XlsCell::new(i as u16, 1, CellV::Label(txt.clone(), None)));
+                sh.cells.push(XlsCell::new(i as u16, 1, CellV::Label(txt.clone(), pack)));
                 cells.push((i as u32, 1, txt.clone()));
             }
             if short && !txt.is_empty() && rng.chance(1, 4) {
@@ -900,7 +940,9 @@ fn run_file(seed: u64, case_line: &str, stream: &[u8]) -> Outcome {
                 // shared formula (SHRFMLA), an array formula (ARRAY) or a data table (TABLE)
                 let between = rng.below(5);
                 if between < 2 {
-                    sh.cells.push(XlsCell::new(i as u16, 2, CellV::Formula { rgce: rgce_int(1), cached: Cached::Str(txt.clone()) }));
+                    use verif_harness::xlsw as x;
+                    sh.cells.push(XlsCell::raw(x::FORMULA, x::formula_payload(i as u16, 2, 0, x::formula_value(&Cached::Str(String::new())), &rgce_int(1))));
+                    sh.cells.push(XlsCell::raw(x::STRING, x::xl_unicode_string(txt, pack, &mut rng)));
                 } else {
                     use verif_harness::xlsw as x;
                     let row = i as u16;
@@ -930,7 +972,7 @@ fn run_file(seed: u64, case_line: &str, stream: &[u8]) -> Outcome {
                         }
                     };
                     sh.cells.push(XlsCell::raw(id, d));
-                    sh.cells.push(XlsCell::raw(x::STRING, x::xl_unicode_string(txt, None, &mut rng)));
+                    sh.cells.push(XlsCell::raw(x::STRING, x::xl_unicode_string(txt, pack, &mut rng)));
                     o.count(match between {
                         2 => "file.string_after_shrfmla",
                         3 => "file.string_after_array",
@@ -1478,8 +1520,8 @@ fn gen_small_table(rng: &mut Rng) -> Vec<Entry> {
 fn gen_str_case(rng: &mut Rng) -> (String, Option<String>) {
     let short = rng.chance(1, 2);
     let biff8 = !rng.chance(1, 5);
-    let maxlen = if short { 255 } else { 400 };
-    let len = (*rng.pick(&[0usize, 0, 1, 2, 3, 7, 40, 255, 400])).min(maxlen);
+    let maxlen = if short { 255 } else { 8200 };
+    let len = (*rng.pick(&[0usize, 0, 1, 2, 3, 7, 40, 255, 400, 400, 4095, 4096, 4097, 5000, 8000])).min(maxlen);
     let units = gen_units(rng, len);
     let narrow_ok = units.iter().all(|u| *u < 256);
     let wide = biff8 && (!narrow_ok || rng.chance(1, 2));
@@ -1569,6 +1611,11 @@ fn corpus() -> Vec<(String, Option<String>)> {
     for seed in 1..=10u64 {
         v.push((format!("file {seed} case 3 6100,~,~,0,1,-,-,-;62006300,~,~,0,0,-,-,-;64006500e900,~,~,0,1,1:1,-,-"), None));
     }
+    // a 5000-character 8-bit string as shared string, LABEL and formula STRING (seeded change C12-m14: 4096 characters per
+    // decode_to call), in sheets of every kind (seeded change C12-m15: chart sheets / VBA modules not scanned)
+    for seed in 11..=18u64 {
+        v.push((format!("file {seed} case 1 {},~,~,0,0,-,-,-", "41004200e9004400".repeat(1250)), None));
+    }
     // an entry with 16 384 rich-text runs: 4 * cRun = 65 536 (seeded change C12-m7: the product computed in 16 bits)
     {
         let mut rng = Rng::new(5);
@@ -1583,8 +1630,12 @@ fn corpus() -> Vec<(String, Option<String>)> {
     v.push(("dec fc000c0001000000ffffff7f00000000".into(), None));
     v.push(("dec fc000b00010000000100000000000c".into(), None));
     v.push(("dec fc000c0001000000ffffffff00000000".into(), None));
-    // illegal: surrogate pair split across records (each half decodes to U+FFFD) — correspondence only
+    // finding D43: a surrogate pair whose halves sit in two records (a record may be cut after any 16-bit unit) read as
+    // U+FFFD U+FFFD; with a flag-only CONTINUE in between (seeded change C12-m13); 8-bit text before the pair
     v.push(("case 1 3dd800de,~,~,0,1,1:1,-,-".into(), None));
+    v.push(("case 1 3dd800de,~,~,0,1,1:1/0:1,-,-".into(), None));
+    v.push(("case 2 610062003dd800de6300,~,~,0,0,2:1/1:1/1:0,-,-;3dd800de,~,~,1,1,-,-,-".into(), None));
+    v.push(("file 2 case 1 61003dd800de6200,~,~,0,1,2:1/0:1/1:1,-,-".into(), None));
     v
 }
 
@@ -1674,6 +1725,12 @@ fn run_job_inner(job: &Job, drv: &mut Driver) -> Vec<Outcome> {
                 let (seed, case_line) = rest.split_once(' ').unwrap_or(("0", ""));
                 let reply = drv.ask(case_line);
                 let stream = unhex(field(&reply, "bytes", "legal").unwrap_or("-"));
+                if field(&reply, "legal", "model") != Some("1") {
+                    // the stored text is only promised for legal layouts
+                    let mut o = Outcome { input: l.clone(), ..Default::default() };
+                    o.count("file.layout_not_legal_skipped");
+                    return vec![o];
+                }
                 vec![run_file(seed.parse().unwrap_or(0), case_line, &stream)]
             } else if l.starts_with("big ") {
                 let w: Vec<&str> = l.split_whitespace().collect();
@@ -1841,8 +1898,10 @@ fn main() {
          string spans several CONTINUE records; ASCII / Latin-1 / BMP / astral (surrogate pairs) / BOM-like and boundary \
          code points; optional rgRun (0..2100 runs, rarely 16384..16500) and ExtRst (0..9000 bytes)) x 8 layouts per table (forced-cuts-only wide, \
          forced-cuts-only compressed, 6 random: cut density 1/400..9/10 per character boundary / run / ext byte, breaks \
-         between strings, zero-length first segment, random 8/16-bit packing per segment whenever all units < 0x100); every \
-         layout is checked `Legal` by the Lean spec (cuts never inside a header or a surrogate pair, records <= 8224 bytes); \
+         between strings, zero-length first segment, random 8/16-bit packing per segment whenever all units < 0x100); breaks between \
+         the halves of a surrogate pair (half of the random layouts), CONTINUE records holding their flag byte alone (a quarter); every \
+         layout is checked `Legal` by the Lean spec (cuts never inside a header or a 16-bit unit, no CONTINUE record opened after the \
+         last character, no empty CONTINUE record, records <= 8224 bytes); \
          the stream is produced by the Lean encoder and read by the real RecordIter+parse_sst (hook, code page 1200), by the \
          Lean model and compared with the stored text; the 8 results of a table must be identical. stage B (correspondence \
          only): illegal layouts, streams with one structural fault, raw record sequences for RecordIter, Record::skip. \
@@ -1862,6 +1921,9 @@ fn main() {
          sheet with DIMENSIONS, LABEL, LABELSST, FORMULA, MERGECELLS) with one record cut to a random shorter length or one \
          byte replaced, sometimes a sheet offset beyond the stream, opened with Xls::new and every sheet read: Ok or Err, no panic. \
          stage E: the Workbook/Book stream of every tests/*.xls fixture through the SST reader (impl vs model). \
+         stage C (long values: 4095 / 4096 / 4097 / 5000 / 8000 characters, 8-bit whenever the text allows) and stage D (one table \
+         in 40 holds 1-3 Latin-1 strings of 4095..8200 characters, written also as inline LABEL and formula STRING values of one record; \
+         sheets are worksheets, macro sheets, chart sheets or VBA modules, all holding the same kinds of cell records). \
          stage C: parse_short_string/parse_string payloads (BIFF8 8/16-bit and BIFF5, empty, truncated) against the stored text \
          (not asserted: the empty BIFF5 short string, whose only reader is the sheet-name field). \
          non-trivial = a legal table with at least one break inside characters/rgRun/ExtRst, or a raw case the reader accepts; \
